@@ -349,25 +349,46 @@ def classify(f: dict, cfg: dict, d: dict) -> str:
     return what + f" (alignment {cfg['align']})"
 
 
+def _find_case(obj):
+    if isinstance(obj, dict):
+        if "case_seed" in obj and "kind" in obj:
+            return obj
+        for v in obj.values():
+            r = _find_case(v)
+            if r is not None:
+                return r
+    elif isinstance(obj, list):
+        for v in obj:
+            r = _find_case(v)
+            if r is not None:
+                return r
+    return None
+
+
 def replay(rep: dict) -> int:
-    """./check C01 --replay FILE : rebuild the stored case, print what the real code does on it."""
+    """./check C01 --replay FILE : rebuild the stored case; show what the real code and the model do on it."""
     common.use_repo_source()
     from tools.corr import C01_real as R
 
     corpus = R.load_corpus()
-    inp = rep.get("input", {})
-    print(json.dumps(rep, indent=1, default=str)[:4000])
-    if "case_seed" in inp:
-        c = make_case(R, corpus, inp["kind"], inp["case_seed"], 10**9 if inp["kind"] == "corpus" else N_CASES["thorough"]["cost_cap"], inp.get("corpus"))
-        c["cfg"] = inp.get("cfg", c["cfg"])
-        if c["cfg"].get("stable") is not None:
-            c["cfg"]["stable"] = list(c["cfg"]["stable"])
-        c["cfg"]["dyn"] = [tuple(x) for x in c["cfg"]["dyn"]]
-        real, model = R.real_answer(c["reaction"], c["cfg"])
-        bad = R.oracle(model) if model is not None else []
-        print("replayed:", json.dumps({"reaction": R.describe(c["reaction"]), "oracle_failures": bad[:6]}, indent=1, default=str))
-        return 1 if bad else 0
-    return PROP.run("quick", int(rep.get("seed", 0)))
+    print(json.dumps(rep, indent=1, default=str)[:3000])
+    inp = _find_case(rep)
+    if inp is None:
+        return PROP.run("quick", int(rep.get("seed", 0)))
+    cap = 10**9 if inp["kind"] == "corpus" else N_CASES["thorough" if rep.get("tier") == "thorough" else "quick"]["cost_cap"]
+    c = make_case(R, corpus, inp["kind"], inp["case_seed"], cap, inp.get("corpus"))
+    if c["cfg"] != {**inp.get("cfg", c["cfg"]), "dyn": [tuple(x) for x in inp.get("cfg", c["cfg"])["dyn"]]}:
+        # the case was generated with the other tier's cost cap: try that one
+        other = N_CASES["thorough" if cap == N_CASES["quick"]["cost_cap"] else "quick"]["cost_cap"]
+        c = make_case(R, corpus, inp["kind"], inp["case_seed"], other, inp.get("corpus"))
+    variant = rep.get("inferred_variant") or dict(SOUND)
+    real, model = R.real_answer(c["reaction"], c["cfg"])
+    bad = R.oracle(model) if model is not None else []
+    lean = R.parse_reply(common.lean_run(DRIVER, R.encode_case(variant, c["reaction"], c["cfg"]) + "\n").strip().split("\n")[0])
+    print("replayed:", json.dumps({"cfg": c["cfg"], "reaction": R.describe(c["reaction"]), "oracle_failures": bad[:6],
+                                   "model_vs_real": "agree" if lean == real else diff_answers(real, lean) if "error" not in real and "error" not in lean and "bad" not in lean else {"real": str(real)[:200], "lean": str(lean)[:200]}},
+                                  indent=1, default=str))
+    return 1 if bad or lean != real else 0
 
 
 PROP = C01Property()
